@@ -4,6 +4,7 @@ Property theorems only; helper lemmas live in `Proofs/Like*.lean`.
 -/
 import SsqlVerif.Proofs.LikeRewrite
 import SsqlVerif.Model.IsNull
+import SsqlVerif.Generated.Facts
 set_option autoImplicit false
 
 namespace C13
@@ -51,3 +52,10 @@ example : convertLike '%' '_' ['%','%','a'] = Rewritten.endsWith ['a'] := by dec
 example : convertLike '%' '_' ['%','a','_','%'] = Rewritten.likeMatch ['%','a','_','%'] := by decide
 
 end C13
+
+/-! tie to the source constants (regenerated on every run from /repo by factsgen):
+the wildcard bytes the three loops test, in source order -/
+theorem C13.facts_wildcards :
+    Facts.condition_matchesLikePattern_strlits = ["%", "_", "%"] ∧
+    Facts.expr_matchLikePattern_strlits = ["%", "_", "%"] ∧
+    Facts.functions_ExprBridge_matchesLikePattern_strlits = ["%", "_", "%"] := by decide
